@@ -374,6 +374,7 @@ class Gen:
         """The core path of the property, once per (family, profile) in every batch."""
         r = self.rng
         mode = self.mode
+        idx_r = (self.seed % 1_000_003) + (self.seed // 1_000_003)
         ds = self._data_for(m0)
         long_span = "partial" if (base0.get("src") == "sample" and base0["fam"] == "billing") else r.choice(["month", "full"])
         if mode == "C01":
@@ -497,6 +498,9 @@ class Gen:
             self.store(m0)
             self.predict(m0, ds[0], ignore=True)
             self.fault()
+            # "today" is another day when the same key is built and fitted again: before the data begin, in the middle of
+            # the baseline year, the next day, years later
+            self.emit("CLOCK", how="date", x=86400.0 * [-12000, 400, -3650, 1, 3660, -3300][idx_r % 6], n=1)
             m = self.models[m0]
             if m["fam"] != "caltrack":
                 d = self.make_data(base0)
